@@ -218,7 +218,8 @@ func runC03(r *Report) {
 			v := vr[0]
 			a0, a1, a2 := originSummary(Arg(v, 0)), originSummary(Arg(v, 1)), originSummary(Arg(v, 2))
 			r.Ob("R-C03-2", CallPos(v), a0 == "field:ClientConfig.SecretKeyEncrypted(param:config)", "secret verified against: "+a0+" (want the stored secret of the looked-up config)", "handleChallengePhase2", "verify-secret-origin")
-			r.Ob("R-C03-2", CallPos(v), strings.HasPrefix(a1, "call:") && strings.Contains(a1, "GetPendingChallenge") && !strings.Contains(a1, ","), "challenge verified: "+a1+" (want this connection's pending challenge only)", "handleChallengePhase2", "verify-challenge-origin")
+			pend := pendingChallengeValues(p2)
+			r.Ob("R-C03-2", CallPos(v), (strings.HasPrefix(a1, "call:") && strings.Contains(a1, "GetPendingChallenge") && !strings.Contains(a1, ",")) || pend[stripValue(Arg(v, 1))], "challenge verified: "+a1+" (want this connection's pending challenge only)", "handleChallengePhase2", "verify-challenge-origin")
 			r.Ob("R-C03-2", CallPos(v), a2 == "field:HandshakeRequest.ChallengeResponse(param:req)", "response verified: "+a2, "handleChallengePhase2", "verify-response-origin")
 			// pending challenge read on the same connection parameter, tested non-empty
 			gp := Calls(p2, false, "GetPendingChallenge")
@@ -227,7 +228,7 @@ func runC03(r *Report) {
 			nonEmpty := false
 			for _, ft := range Facts(v.Block()) {
 				if bo, ok := ft.Cond.(*ssa.BinOp); ok && len(gp) == 1 {
-					if bo.X == gp[0].(ssa.Value) {
+					if bo.X == gp[0].(ssa.Value) || (pendingChallengeValues(p2)[bo.X] && stripValue(bo.X) == stripValue(Arg(v, 1))) {
 						if s, ok := stripValue(bo.Y).(*ssa.Const); ok && constString(s) == "" {
 							if (bo.Op.String() == "==" && !ft.Pol) || (bo.Op.String() == "!=" && ft.Pol) {
 								nonEmpty = true
@@ -1115,4 +1116,38 @@ func constInputRefusedByCallers(p *Prog, f *ssa.Function, ret *ssa.Return) bool 
 		}
 	}
 	return false
+}
+
+// pendingChallengeValues: the pending challenge read from the connection in f, and every value a
+// same-package helper computes from it alone (`issuedFor, challenge := split(conn.GetPendingChallenge())`:
+// the stored value may carry more than the nonce; what is verified is still this connection's).
+func pendingChallengeValues(f *ssa.Function) map[ssa.Value]bool {
+	out := map[ssa.Value]bool{}
+	for _, c := range Calls(f, false, "GetPendingChallenge") {
+		if v, ok := c.(ssa.Value); ok {
+			out[v] = true
+		}
+	}
+	for round := 0; round < 2; round++ {
+		Instrs(f, func(in ssa.Instruction) {
+			switch x := in.(type) {
+			case *ssa.Call:
+				h := x.Common().StaticCallee()
+				if h == nil || h.Pkg != f.Pkg || len(h.Blocks) == 0 || len(x.Call.Args) == 0 {
+					return
+				}
+				for _, a := range x.Call.Args {
+					if !out[stripValue(a)] {
+						return
+					}
+				}
+				out[x] = true
+			case *ssa.Extract:
+				if out[x.Tuple] {
+					out[x] = true
+				}
+			}
+		})
+	}
+	return out
 }
